@@ -162,6 +162,15 @@ func dispatchTable(u *Universe) (map[string]string, map[string]string, []string,
 			for _, s := range sw.Body.List {
 				cc := s.(*ast.CaseClause)
 				o := outcome(classifyArm(info, cc.Body))
+				if differs, inner, isGuarded := duidGuardedArm(u, info, cc.Body); isGuarded {
+					// the arm decides by whether the request names the datatype that was found by its key
+					io := outcome(classifyArm(info, inner))
+					if differs {
+						o = "differs:" + io + "|same:proceed"
+					} else {
+						o = "differs:proceed|same:" + io
+					}
+				}
 				if cc.List == nil {
 					deflt = o
 				}
@@ -247,6 +256,65 @@ func dispatchTable(u *Universe) (map[string]string, map[string]string, []string,
 	return table, pos, cases, seenBits["S|C"] && seenBits["S"] && seenBits["C"]
 }
 
+// duidGuardedArm recognises an arm that is exactly "if <the request's DUID is (not) the found datatype's DUID> { ... }"
+// with nothing after it (the other case falls out of the switch, i.e. proceeds). The test is a comparison of a
+// selector ending in DUID on the handler with the DUID of its datatypeDoc, written in place or as the only returned
+// expression of a handler method; a leading ! inverts it.
+func duidGuardedArm(u *Universe, info *types.Info, body []ast.Stmt) (differs bool, inner []ast.Stmt, ok bool) {
+	if len(body) != 1 {
+		return
+	}
+	st, isIf := body[0].(*ast.IfStmt)
+	if !isIf || st.Init != nil || st.Else != nil {
+		return
+	}
+	var cmp func(e ast.Expr, depth int) (same bool, ok bool)
+	cmp = func(e ast.Expr, depth int) (bool, bool) {
+		e = ast.Unparen(e)
+		switch x := e.(type) {
+		case *ast.UnaryExpr:
+			if x.Op == token.NOT {
+				s, k := cmp(x.X, depth)
+				return !s, k
+			}
+		case *ast.BinaryExpr:
+			if x.Op != token.EQL && x.Op != token.NEQ {
+				return false, false
+			}
+			l, r := types.ExprString(ast.Unparen(x.X)), types.ExprString(ast.Unparen(x.Y))
+			isDoc := func(t string) bool { return strings.HasSuffix(t, "datatypeDoc.DUID") }
+			isReq := func(t string) bool { return strings.HasSuffix(t, ".DUID") && !isDoc(t) && strings.Count(t, ".") == 1 }
+			if (isDoc(l) && isReq(r)) || (isDoc(r) && isReq(l)) {
+				return x.Op == token.EQL, true
+			}
+		case *ast.CallExpr:
+			if depth > 1 || len(x.Args) != 0 {
+				return false, false
+			}
+			f := calleeOf(info, x)
+			if f == nil {
+				return false, false
+			}
+			fd, p := u.Decl(f)
+			if fd == nil || fd.Body == nil || len(fd.Body.List) != 1 {
+				return false, false
+			}
+			ret, isRet := fd.Body.List[0].(*ast.ReturnStmt)
+			if !isRet || len(ret.Results) != 1 {
+				return false, false
+			}
+			_ = p
+			return cmp(ret.Results[0], depth+1)
+		}
+		return false, false
+	}
+	same, recognised := cmp(st.Cond, 0)
+	if !recognised {
+		return
+	}
+	return !same, st.Body.List, true
+}
+
 type cellOb struct {
 	bits, cas string
 	allowed   []string
@@ -265,9 +333,9 @@ var r131 = []cellOb{
 	{"S|C", "caseMatchNothing", []string{"create"}, "subscribe-or-create of a new key creates"},
 	{"S|C", "caseAllMatchedNotSubscribed", []string{"subscribe"}, "subscribe-or-create of an existing key subscribes"},
 	{"S|C", "caseMatchKeyNotType", []string{"error"}, "subscribe-or-create with another datatype type must be refused"},
-	{"C", "caseAllMatchedSubscribed", []string{"proceed"}, "the retry of a create that was already committed (response lost) must go on as a normal push-pull"},
-	{"S", "caseAllMatchedSubscribed", []string{"proceed", "subscribe"}, "the retry of a subscribe that was already committed must not be refused (whether it has to subscribe again is R13.6)"},
-	{"S|C", "caseAllMatchedSubscribed", []string{"proceed", "subscribe"}, "the retry of a subscribe-or-create that was already committed must not be refused (whether it has to subscribe again is R13.6)"},
+	{"C", "caseAllMatchedSubscribed", []string{"proceed", "differs:error|same:proceed"}, "the retry of a create that was already committed (response lost) names the datatype and must go on as a normal push-pull; a create under another DUID may only be refused"},
+	{"S", "caseAllMatchedSubscribed", []string{"proceed", "subscribe", "differs:subscribe|same:proceed"}, "the retry of a subscribe that was already committed must not be refused (whether it has to subscribe again is R13.6)"},
+	{"S|C", "caseAllMatchedSubscribed", []string{"proceed", "differs:subscribe|same:proceed"}, "the retry of a subscribe-or-create that was already committed must not be refused, and the retry of its creator (which names the datatype) must go on as a normal push-pull: subscribing would drop the operations it pushes (whether a non-creator has to subscribe again is R13.6)"},
 	{"C", "caseUsedDUID", []string{"error"}, "create with a DUID that belongs to another datatype must be refused (going on would attach the requester to that datatype)"},
 	{"S", "caseAllMatchedNotVisible", []string{"error"}, "subscribe to a hidden datatype must be refused"},
 	{"S|C", "caseAllMatchedNotVisible", []string{"error"}, "subscribe-or-create on a hidden datatype must be refused"},
